@@ -160,6 +160,12 @@ def main():
                 else:
                     machinery.append("MODEL-ONLY %s lens=%s: model reports misalignment, not confirmed on the code"
                                      % (c.key(), lv))
+            if term["done"] and n > w and not term.get("joinAligned", True):
+                joins = ["%s(operands %s)" % (c.net.procs[p - 1]["src"], si) for p, si in sorted(c.net.strict_in.items()) if si]
+                V.violation({"pipe": c.pipe, "symptom": "misaligned-join"},
+                            "%s n=%d: in the network the real code wires, an output value combines two indicator values that refer to "
+                            "DIFFERENT input positions (no alignment Skip between branches with different warm-ups; strict joins: %s): "
+                            "the k-th value does not refer to input position k + %d alone" % (c.key(), n, joins[:4], w), replay)
             if diffs:
                 machinery.append("MODEL-DIVERGENCE %s lens=%s: %s" % (c.key(), lv, diffs))
             if len(cov.samples) < 6 and n == w + 2:
